@@ -70,6 +70,10 @@ def run(ctx):
                   if abs(t) / n <= 600]
         cfgs = [c for c in ctx.corpus if not (c.get("kernel") or c.get("sweep"))] + \
                [tu.gen_config(ctx.rng) for _ in range(12 if ctx.quick() else 150)]
+        for i in range(6 if ctx.quick() else 60):
+            cfg = tu.gen_config(ctx.rng)
+            cfg.update({"limit": 1, "K": max(3, cfg["K"]), "force_final": ["singleton", "pair", "empty"][i % 3]})
+            cfgs.append(cfg)
 
     # ---------------- (a) kernel vs model at Rat
     nwl = {}
@@ -160,6 +164,23 @@ def run(ctx):
                               cfg, {"site": "ll-result"})
             elif not oracles.rel_close(res.overall_log_likelihood, math.fsum(grouped), 1e-9, 1e-6):
                 ctx.violation("impl-violation", "overall log-likelihood is not the sum of the log-densities", cfg, {"site": "ll-result"})
+            else:
+                # per-cluster means and medians are those of the cluster's own points (0 if none)
+                import statistics
+                for k in range(K):
+                    vals = [v for v, l in zip(per_point, labels) if l == k]
+                    wm = math.fsum(vals) / len(vals) if vals else 0.0
+                    wmed = statistics.median(vals) if vals else 0.0
+                    if not (oracles.rel_close(res.cluster_log_likelihood_mean[k], wm, 1e-9, 1e-7)
+                            and oracles.rel_close(res.cluster_log_likelihood_median[k], wmed, 1e-9, 1e-7)):
+                        ctx.violation("impl-violation",
+                                      f"cluster {k} ({len(vals)} point(s)): reported mean/median "
+                                      f"{float(res.cluster_log_likelihood_mean[k])}/{float(res.cluster_log_likelihood_median[k])} "
+                                      f"!= log-density mean/median {wm}/{wmed}", cfg, {"site": "ll-cluster-stats"})
+                        break
+                if not (oracles.rel_close(res.overall_log_likelihood_mean, math.fsum(grouped) / len(grouped), 1e-9, 1e-7)
+                        and oracles.rel_close(res.overall_log_likelihood_median, statistics.median(grouped), 1e-9, 1e-7)):
+                    ctx.violation("impl-violation", "overall mean/median are not those of the log-densities", cfg, {"site": "ll-result"})
         # (length mismatches are C06's business)
         ctx.count("runs_checked")
         ctx.case(("cfg", repr(sorted(cfg.items()))), nontrivial=cfg["N"] * cfg["W"] >= 2)
